@@ -32,4 +32,49 @@ theorem C17_model_front_end_conforms (fuel : Nat) (text : List UInt8) :
 theorem C17_front_end_stable {n n' : Nat} (hnn : n ≤ n') {text g} (h : FrontEnd.parse n text = .grammar g) :
     FrontEnd.parse n' text = .grammar g := frontEnd_fuel_stable hnn h
 
+/-! ## non-vacuity (BEGIN) -/
+namespace C17_nv
+
+/-! instance: the text `#c⏎@export A=B;` (`textExport`, Proofs/FrontEndProofs.lean; a comment line, a directive, an
+    unnamed field), read with fuels 64 and 72 -/
+
+theorem spec64 : (Spec.parse FrontEnd.metaEnv 0 64 "Grammar" textExport).isSome = true := by decide +kernel
+theorem spec72 : (Spec.parse FrontEnd.metaEnv 0 72 "Grammar" textExport).isSome = true := by decide +kernel
+
+/-- `C17_conforming_front_ends_agree`: both premises hold (two different fuels), the answers coincide – and the answer
+    is a success that consumed all 15 bytes -/
+example : (Spec.parse FrontEnd.metaEnv 0 64 "Grammar" textExport).get spec64 =
+    (Spec.parse FrontEnd.metaEnv 0 72 "Grammar" textExport).get spec72 :=
+  C17_conforming_front_ends_agree textExport (Option.some_get spec64).symm (Option.some_get spec72).symm
+example : (match Spec.parse FrontEnd.metaEnv 0 64 "Grammar" textExport with
+    | some (.ok _ s) => s.off == 15 && s.rest == [] | _ => false) = true := by decide +kernel
+
+/-- `C17_front_end_stable` / `C17_model_front_end_conforms`: the premise `FrontEnd.parse 64 … = .grammar g` holds -/
+example : ∃ g, FrontEnd.parse 64 textExport = .grammar g ∧ FrontEnd.parse 72 textExport = .grammar g ∧
+    ∃ m v s, Spec.parse FrontEnd.metaEnv 0 m "Grammar" textExport = some (.ok v s) ∧ FrontEnd.toGrammar 64 v = some g := by
+  have h := frontend_example_export
+  cases hp : FrontEnd.parse 64 textExport with
+  | grammar g => exact ⟨g, rfl, C17_front_end_stable (by decide) hp, (C17_model_front_end_conforms 64 textExport).1 g hp⟩
+  | parseError e => rw [hp] at h; cases h
+  | other msg => rw [hp] at h; cases h
+/-- … and the grammar read with the larger fuel is `@export A = B;` -/
+example : isExportAB (FrontEnd.parse 72 textExport) = true := by decide +kernel
+/-- with too little fuel the front end says so (so stability is about a real threshold) -/
+example : (match FrontEnd.parse 30 textExport with | .other m => m == "out of fuel" | _ => false) = true := by decide +kernel
+
+/-- the invalid text `A=`: the model front end reports a parse error, and so does the reference reading -/
+example : ∃ e, FrontEnd.parse 64 textBad = .parseError e ∧
+    ∃ m, Spec.parse FrontEnd.metaEnv 0 m "Grammar" textBad = some (.err Spec.noErr) := by
+  have h := frontend_example_error
+  cases hp : FrontEnd.parse 64 textBad with
+  | grammar g => rw [hp] at h; cases h
+  | parseError e => exact ⟨e, rfl, (C17_model_front_end_conforms 64 textBad).2 e hp⟩
+  | other msg => rw [hp] at h; cases h
+
+/-- `accepts` is not constantly `true` on the meta-grammar: with an invalid derive name it is rejected -/
+example : Compile.accepts Extracted.metaGrammar { derives := ["Cl one"] } 64 = false := by decide +kernel
+
+end C17_nv
+/-! ## non-vacuity (END) -/
+
 end Peg.Props
